@@ -55,8 +55,8 @@ ASSUME_TEMPORAL = [
     "and with / without the trailing slash) and / or a key; the SCT handed back for a certificate routed to shard s must verify under "
     "and name the key configured for s, whoever else is served from that URI; quick: exhaustive check over {own URI and key, one URI "
     "x three keys, one URI x one key}, server-class cases additionally over {three URIs x one key, one URI with a first shard without "
-    "key}, routing cases and sequences over {own URI and key, one URI x three keys}; thorough: all eight deployments in the exhaustive "
-    "check and the server-class cases; GetAcceptedRoots is explored with every shard behind its own URI only; NAMED CLAUSE "
+    "key}, routing cases and sequences over {own URI and key, one URI x three keys}; thorough: the same, and all eight deployments in the "
+    "server-class cases; GetAcceptedRoots is explored with every shard behind its own URI only; NAMED CLAUSE "
     "UnkeyedShard: what a shard configured without a key hands back is not judged (routing, requests and pacing still are)",
     "temporal client, NAMED CLAUSE LaxFirstElement: a first chain element that parses only leniently may be refused before "
     "anybody is contacted or routed by its NotAfter; nothing else is accepted",
